@@ -9,14 +9,49 @@ import torch
 NETS = {"am": "rbm_am", "ph": "rbm_ph"}
 
 
+VIA = [None]          # None | "deepcopy" | "pickle": how the object under test is reached (see `copied`)
+_ORIGINALS = []
+SYM_ORIG = [False]    # set by the lemmas (front end N): the original's parameters are symbols, not numbers
+
+
+def copied(obj):
+    """The properties speak about a state / network whatever its history.  With VIA set, the object handed to the
+    harness is a copy (copy.deepcopy, or a pickle round trip) of another object whose parameters were set to
+    unrelated non-zero numbers first; the harness then installs its own parameters in the copy.  Anything the copy
+    still shares with - or looks up in - the original shows up as a value that is not a function of the copy's own
+    parameters.  The original is kept alive."""
+    how = VIA[0]
+    if how is None:
+        return obj
+    import copy, pickle
+    rng = np.random.default_rng(424242)
+    mods = [(n, getattr(obj, n)) for n in obj.networks] if hasattr(obj, "networks") else [("rbm", obj)]
+    for nm, m in mods:
+        if SYM_ORIG[0] and how == "deepcopy":
+            # under front end N the original holds symbols of its own, so that whatever leaks into the copy's results
+            # is a symbol the contract does not mention (refuted with a witness) instead of a stray constant
+            from qv import native as _N
+            _N.symbolize(m, "original_object." + nm, frozen=False)
+            continue
+        for n, p in m.named_parameters():
+            p.data = torch.tensor(rng.normal(0, 1.3, size=tuple(p.shape)), dtype=torch.double)
+    _ORIGINALS.append(obj)
+    if how == "pickle":
+        try:
+            return pickle.loads(pickle.dumps(obj))
+        except (pickle.PicklingError, AttributeError, TypeError):
+            pass        # no property promises that a state can be pickled: fall back to the other copy route
+    return copy.deepcopy(obj)
+
+
 def make_state(kind, nv, nh=None, na=None, unitary_dict=None):
     from qucumber.nn_states import PositiveWaveFunction, ComplexWaveFunction, DensityMatrix
     if kind == "positive":
-        return PositiveWaveFunction(nv, nh, gpu=False)
+        return copied(PositiveWaveFunction(nv, nh, gpu=False))
     if kind == "complex":
-        return ComplexWaveFunction(nv, nh, gpu=False, unitary_dict=unitary_dict)
+        return copied(ComplexWaveFunction(nv, nh, gpu=False, unitary_dict=unitary_dict))
     if kind == "mixed":
-        return DensityMatrix(nv, nh, na, gpu=False, unitary_dict=unitary_dict)
+        return copied(DensityMatrix(nv, nh, na, gpu=False, unitary_dict=unitary_dict))
     raise ValueError(kind)
 
 
